@@ -276,7 +276,8 @@ func (d *HeadingDetector) detectBodyFontSize(paragraphs []Paragraph) float64 {
 	maxCount := 0
 	mostCommonBucket := 0
 	for bucket, count := range fontCounts {
-		if count > maxCount {
+		// Ties go to the smaller font size: map iteration order must not decide the result
+		if count > maxCount || (count == maxCount && bucket < mostCommonBucket) {
 			maxCount = count
 			mostCommonBucket = bucket
 		}
